@@ -16,6 +16,7 @@ from rsocket.rsocket_client import RSocketClient
 ALLOWED = allowed('C17')
 CAUSE = part('cause', 0)          # 0 server EOF, 1 transport error, 2 keep-alive time-out, 3 explicit reconnect while healthy
 ROUNDS = part('rounds', 1)
+CLOSE_RAISES = part('close_raises', False)   # the old transport's close() raises ConnectionResetError (reset connection)
 IDLE_MAX = part('idle_max', 2500000)
 PEND = part('pend', None)          # optional partition: [pending request-response?, pending stream?, when]
 P_US = 1000000
@@ -76,6 +77,7 @@ def c_reconnect(pend_rr: bool, pend_rs: bool, when: int, idle_us: int, settle_us
     with loop:
         ts = [SimTransport(loop) for _ in range(ROUNDS + 1)]
         for x in ts:
+            x.close_raises = bool(CLOSE_RAISES)
             x.auto_ack = True           # a live server acknowledges keep-alives (until it goes silent for CAUSE 2)
         c = RSocketClient(provider(ts), handler_factory=_H, keep_alive_period=timedelta(microseconds=P_US),
                           max_lifetime_period=timedelta(microseconds=L_US))
